@@ -1502,6 +1502,20 @@ class Gen:
             if f == ("var", "Wad"):
                 return self.tr(e[2][0], env, lambda a, t: k(a, "Wad"), ret)
             raise Unsupported(f"call of {f} ({pure_err})")
+        if kind == "mcall" and self.strip(e[1]) == ("var", "e") and e[2] == "invoke_contract" \
+                and isinstance(getattr(self, "reads", {}).get("invoke_contract"), tuple):
+            # `e.invoke_contract::<T>(contract, fn, args)`: a cross-contract call, a function of the reads record
+            spec = self.reads["invoke_contract"]
+            if len(e[3]) != len(spec[1]):
+                raise Unsupported("invoke_contract: arity")
+            self.uses_reads = True
+            atoms = []
+            def goz(j):
+                if j == len(e[3]):
+                    v_ = self.fresh()
+                    return f"(Comp.bind (envr.invoke_contract {' '.join(atoms)}) fun {v_} =>\n {k(v_, spec[2])})"
+                return self.tr(e[3][j], env, lambda a, t: (atoms.append(a), goz(j + 1))[1], ret)
+            return goz(0)
         if kind == "mcall" and self.strip(e[1])[0] == "var" and env.get(self.strip(e[1])[1], ("", ""))[1].startswith("Client:") \
                 and isinstance(getattr(self, "reads", {}).get(env[self.strip(e[1])[1]][1][7:] + "_" + e[2]), tuple) \
                 and self.reads[env[self.strip(e[1])[1]][1][7:] + "_" + e[2]][0] == "fn":
@@ -1509,10 +1523,14 @@ class Gen:
             cname = env[self.strip(e[1])[1]][1][7:] + "_" + e[2]
             spec = self.reads[cname]
             cargs = [a for a in e[3] if not self.is_handle(a, env)]
+            atoms = []
+            caddr_ = env[self.strip(e[1])[1]][0]
+            if len(cargs) + 1 == len(spec[1]) and caddr_:
+                atoms.append(caddr_)
+                spec = (spec[0], spec[1][1:], spec[2])
             if len(cargs) != len(spec[1]):
                 raise Unsupported(f"{cname}: arity")
             self.uses_reads = True
-            atoms = []
             def goy(j):
                 if j == len(cargs):
                     v_ = self.fresh()
@@ -1733,6 +1751,27 @@ class Gen:
                     env1 = dict(env, **{f_: (f"{pv}.{f_}", sflds_[f_]) for f_ in flds_})
                     return f"({en_}.case{vn_} {sv}\n (fun {pv} =>\n {arm(body1, env1)})\n ({arm(body2, env)}))"
                 return self.tr(m_[1], env, kmv, ret)
+            if s[0] == "expr" and self.strip(s[1])[0] == "match" and len(self.strip(s[1])[2]) >= 2 \
+                    and all(p_[0] == "path" and len(p_[1]) == 2 and p_[1][0] in getattr(self, "enums", {}) for p_, _ in self.strip(s[1])[2][:-1]) \
+                    and (self.strip(s[1])[2][-1][0][0] in ("wild",) or
+                         (self.strip(s[1])[2][-1][0][0] == "path" and len(self.strip(s[1])[2][-1][0][1]) == 2
+                          and self.strip(s[1])[2][-1][0][1][0] in getattr(self, "enums", {}))):
+                # `match x { Enum::A => .., Enum::B => .. }` on a unit enum, as a statement: an if-chain (the last arm
+                # is the `else`; the arms must cover the enum, which the Rust compiler has checked)
+                m_ = self.strip(s[1])
+                arms_ = list(m_[2])
+                en_ = arms_[0][0][1][0]
+                named_ = [p_[1][1] for p_, _ in arms_ if p_[0] == "path"]
+                if arms_[-1][0][0] == "path" and sorted(named_) != sorted(self.enums[en_]):
+                    raise Unsupported(f"match on {en_} does not name every variant")
+                blk = lambda b_: b_ if b_[0] == "block" else ("block", [("expr", b_)], None)
+                def chain(j_):
+                    if j_ == len(arms_) - 1:
+                        return blk(arms_[j_][1])
+                    return ("block", [("expr", ("if", ("bin", "==", m_[1], ("path", arms_[j_][0][1])), blk(arms_[j_][1]), chain(j_ + 1)))], None)
+                stmts2 = list(stmts)
+                stmts2[i] = chain(0)[1][0]
+                return self.tr_stmts(stmts2[i:], env, k_end, ret)
             if s[0] == "expr" and self.strip(s[1])[0] == "match":
                 m_ = self.strip(s[1])
                 pats = [p_ for p_, _ in m_[2]]
@@ -1752,12 +1791,16 @@ class Gen:
                     # declared stand-ins. The address it is built from is evaluated (it may panic), its value is the
                     # contract the stand-ins model
                     cty_ = ini[1][1][-2]
+                    addr_ = []
                     def gocl(j_):
                         if j_ == len(ini[2]):
-                            return go(i + 1, dict(env, **{s[1]: ("", "Client:" + cty_)}))
+                            return go(i + 1, dict(env, **{s[1]: (addr_[0] if addr_ else "", "Client:" + cty_)}))
                         if self.is_handle(ini[2][j_], env):
                             return gocl(j_ + 1)
-                        return self.tr(ini[2][j_], env, lambda a_, t_: gocl(j_ + 1), ret)
+                        def kcl(a_, t_):
+                            addr_.append(a_)      # the contract the client talks to
+                            return gocl(j_ + 1)
+                        return self.tr(ini[2][j_], env, kcl, ret)
                     return gocl(0)
             if s[0] == "let" and getattr(self, "store", None):
                 ko = self.key_of(s[3], env)
@@ -1845,10 +1888,15 @@ class Gen:
                     if not (isinstance(spec, tuple) and spec[0] == "fn"):
                         raise Unsupported(f"cross-contract call {cname} is not declared")
                     cargs = [a for a in e[3] if not self.is_handle(a, env)]
+                    atoms = []
+                    caddr_ = env[self.strip(e[1])[1]][0]
+                    if len(cargs) + 1 == len(spec[1]) and caddr_:
+                        atoms.append(caddr_)       # the declaration names the called contract first
+                        spec = (spec[0], spec[1][1:], spec[2])
                     if len(cargs) != len(spec[1]):
                         raise Unsupported(f"{cname}: arity")
                     self.uses_reads = True
-                    atoms = []
+                    pre_ = list(atoms)
                     def gox(j):
                         if j == len(cargs):
                             v_ = self.fresh()
@@ -2469,6 +2517,16 @@ READS_OWN = {"Ownable": {"ledger_sequence": "u32", "min_temp_ttl": "u32", "max_t
 FILES_OWN = [("Ownable", "packages/access/src/role_transfer/storage.rs", ["transfer_role", "accept_transfer"]),
              ("Ownable", "packages/access/src/ownable/storage.rs",
               ["get_owner", "enforce_owner_auth", "transfer_ownership", "accept_ownership", "renounce_ownership"])]
+STORE_FEEST = {"FeeSt": {"Count": ([], "u32"), "TokenIndex": (["Address"], "u32")}}
+READS_FEEST = {"FeeSt": {"ledger_sequence": "u32", "current_contract_address": "Address",
+                         "authorized_for_args": ("purefn", ["Address", "tuple<Address,i128,u32,Address,Symbol,Val>"], "bool"),
+                         "TokenClient_approve": ("fn", ["Address", "Address", "Address", "i128", "u32"], "()"),
+                         "TokenClient_allowance": ("fn", ["Address", "Address", "Address"], "i128"),
+                         "TokenClient_transfer_from": ("fn", ["Address", "Address", "Address", "Address", "i128"], "()"),
+                         "invoke_contract": ("fn", ["Address", "Symbol", "Val"], "Val")}}
+FILES_FEEST = [("FeeSt", "packages/fee-abstraction/src/storage.rs",
+                ["is_fee_token_allowlist_enabled", "is_allowed_fee_token", "validate_fee_bounds", "validate_expiration_ledger",
+                 "collect_fee", "collect_fee_and_invoke"])]
 STORE_RT = {"RoleTransfer": {"Pending": ([], "Address", "temp"), "Active": ([], "Address")}}
 READS_RT = {"RoleTransfer": {"ledger_sequence": "u32", "min_temp_ttl": "u32", "max_ttl": "u32", "authorized": "addr2bool"}}
 FILES_RT = [("RoleTransfer", "packages/access/src/role_transfer/storage.rs", ["transfer_role", "accept_transfer"])]
@@ -3064,6 +3122,9 @@ def main():
                             reads=READS_VST, structs=STRUCTS_FUNGIBLE, store=STORE_VST, impl_types={"Base": "VaultSt", "Vault": "VaultSt"},
                             stubs=STUBS_VST, writer_stubs=("Client_transfer", "Client_transfer_from"),
                             rename_types={"AllowanceData": "VaultSt.AllowanceData", "AllowanceKey": "VaultSt.AllowanceKey"})
+        elif "--fee-st" in sys.argv:
+            txt = translate(repo, FILES_FEEST, reads=READS_FEEST, store=STORE_FEEST,
+                            tymaps={"packages/fee-abstraction/src/storage.rs": {"Vec<Val>": "Val"}})
         elif "--smart-account" in sys.argv:
             # HOLE (declared): the candidate list `context_rules` of `get_validated_context` (the `match` on the host's
             # Context object and `get_valid_context_rules`) is the function `valid_context_rules` of the reads record
